@@ -151,6 +151,7 @@ pub fn run(tier: Tier) -> Report {
             let acc = par_chunks_varied(total, 1 << 14, |acc, lo, hi| {
                 let px: Vec<[f32; 3]> = (lo..hi).map(|i| [g[(i / (gl * gl)) as usize], g[((i / gl) % gl) as usize], g[(i % gl) as usize]]).collect();
                 check(acc, p, to709, base + lo, &px);
+                crate::img::echo_check(acc, base + lo, "primaries conversion", &px, &|q| convert(p, to709, q), "c06echo", &json!({"primaries":format!("{p:?}"),"to709":to709}));
                 crate::img::refine_violations(acc, base + lo, &px, 1, &|a, it| check(a, p, to709, 0, it), &pxs_json);
                 if lo == 0 && p == CP::P3DCI {
                     acc.sample(json!({"primaries":"P3DCI","dir":dir(to709),"rgb":px3s(px[px.len()/2])}));
@@ -158,6 +159,13 @@ pub fn run(tier: Tier) -> Report {
             });
             rep.acc.merge(acc);
             base += total;
+            for &big in BIG_SIZES.iter() {
+                let px: Vec<[f32; 3]> = (0..big as u64).map(|k| { let i = (k * 7919) % total; [g[(i / (gl * gl)) as usize], g[((i / gl) % gl) as usize], g[(i % gl) as usize]] }).collect();
+                let mut acc = Acc::default();
+                check(&mut acc, p, to709, base, &px);
+                crate::img::refine_violations(&mut acc, base, &px, 1, &|a, it| check(a, p, to709, 0, it), &pxs_json);
+                rep.acc.merge(acc);
+            }
         }
     }
     rep.bound = format!("11 supported primaries x 2 directions x [ full product lattice on [-0.5,2]^3 with step {} = {total} pixels; basis vectors, white, 20 greys ]", 2.5 / steps as f64);
@@ -172,6 +180,9 @@ pub fn run(tier: Tier) -> Report {
 pub fn replay(case: &Value) -> (bool, String) {
     let p = cp_from_name(case["primaries"].as_str().unwrap());
     let to709 = case["to709"].as_bool().unwrap();
+    if case["kind"] == "c06echo" {
+        return crate::img::echo_replay(case, &|q| convert(p, to709, q));
+    }
     let v = px3_from(&case["rgb"]);
     let mut acc = Acc::default();
     let (items, shape) = crate::img::replay_items(case, vec![v], &pxs_from);
